@@ -278,6 +278,25 @@ def b_poly(tier):
                 b.fail(Failure("polynomials", f"what={opn} p={a.data} q={c.data}", dict(kind="poly", op=opn, p=repr(a.data), q=repr(c.data)),
                                expected="homomorphic, well-formed", actual=(outcome.describe(r) if r[0] == "exc" else repr(getattr(r[1], 'data', r[1])))[:200],
                                functions=[f"Polynomial.__{opn}__"]))
+    # polynomials in two different variables (the result nests one inside the other by the monomial order), both operand orders
+    yv = p.Variable("y")
+
+    def val2(pl, tx, ty):
+        if not isinstance(pl, Polynomial):
+            return pl
+        return sum(val2(c, tx, ty) * (tx if pl.base == x else ty) ** e for e, c in pl.data)
+    ypolys = [Polynomial(yv, ((1, 2), (3, -1))), Polynomial(yv, ((0, 1),)), Polynomial(yv, ((0, -2), (1, 1))), Polynomial(yv, ((2, Fraction(1, 2)),)), Polynomial(yv, ())]
+    for a in trees.thin(polys, 40, seed=7):
+        for c in ypolys:
+            for opn, op in (("add", operator.add), ("sub", operator.sub), ("mul", operator.mul)):
+                for u, v, order in ((a, c, "x-y"), (c, a, "y-x")):
+                    r = outcome.run(lambda: op(u, v))
+                    b.case(("two-var", opn, order, repr(a.data), repr(c.data)), sample=dict(op=opn, order=order, p=repr(a.data), q=repr(c.data)))
+                    ok = r[0] == "val" and all(val2(r[1], tx, ty) == op(val2(u, tx, ty), val2(v, tx, ty)) for tx, ty in ((3, 5), (-2, Fraction(1, 2)), (0, 1), (1, 0)))
+                    if not ok:
+                        b.fail(Failure("polynomials", f"what=two-variables-{opn} order={order} p={a.data} q={c.data}", dict(kind="poly", op=f"two-var-{opn}", order=order, p=repr(a.data), q=repr(c.data)),
+                                       expected="homomorphic in both variables", actual=(outcome.describe(r) if r[0] == "exc" else repr(getattr(r[1], "data", r[1])))[:200],
+                                       functions=[f"Polynomial.__{opn}__"]))
     # a polynomial and a plain number, in both operand orders (the reflected methods)
     for a in trees.thin(polys, 60, seed=6):
         for sc in (3, -2, Fraction(1, 2)):
